@@ -18,7 +18,7 @@ def consts(**kw):
 
 def run(ctx):
     sd = ctx.spec_dir("clusterwrite")
-    timeout_ms = ctx.pick(3, 8)
+    timeout_ms = ctx.pick(6, 12)
     workers = 16
     # The test binary of package coordinator binds a fixed port in an init function (pool_test.go): run it in its
     # own network namespace so that concurrent checks on the same package do not kill each other.  A small
@@ -40,22 +40,31 @@ def run(ctx):
         return ctx.finish("model_checking", {"replayed_behaviours": done.get("behaviours", 0)})
 
     # 1. the model satisfies the property: every configuration (1-3 owners, coordinator an owner or not, four
-    #    levels, AllowOutOfOrderWrites on/off, every subset of non-empty hand-off queues), every interleaving
-    ctx.write_cfg(sd, "MC.cfg", "Spec", consts(), INV)
-    r = ctx.tlc_check(sd, "ClusterWrite", "MC.cfg", workers=8, timeout=900, coverage=not ctx.quick())
-    if not ctx.quick() and r.get("zero_coverage"):
-        raise Infra("actions never taken in ClusterWrite: %s" % r["zero_coverage"])
-    # non-vacuity / negative controls on the model: the code as it was before the repair of F5 violates
-    # SuccessIfMetInTime; partial writes and "any met by a queued hand-off alone" are reachable
+    #    levels, AllowOutOfOrderWrites on/off, every subset of non-empty hand-off queues), every interleaving of
+    #    the owners' steps, channel sends, collector receives and the timer
+    if ctx.quick():
+        ctx.write_cfg(sd, "MC3.cfg", "Spec", consts(OOO=[False]), INV)
+        ctx.tlc_check(sd, "ClusterWrite", "MC3.cfg", workers=8, timeout=900)
+        ctx.write_cfg(sd, "MC2.cfg", "Spec", consts(MaxN=2), INV)
+        ctx.tlc_check(sd, "ClusterWrite", "MC2.cfg", workers=4, timeout=300)
+    else:
+        ctx.write_cfg(sd, "MC.cfg", "Spec", consts(), INV)
+        r = ctx.tlc_check(sd, "ClusterWrite", "MC.cfg", workers=8, timeout=1500, coverage=True)
+        if r.get("zero_coverage"):
+            raise Infra("actions never taken in ClusterWrite: %s" % r["zero_coverage"])
+    # negative control on the model: the code as it was before the repair of F5 (level any ignores a hand-off
+    # accepted behind a non-empty queue) violates SuccessIfMetInTime
     ctx.write_cfg(sd, "MCdev.cfg", "Spec", consts(MaxN=2, Dev=['"anyIgnoresQueuedHandoff"']), INV)
     r = ctx.tlc_check(sd, "ClusterWrite", "MCdev.cfg", workers=4, timeout=300, expect_ok=False)
     if not any("C03_SuccessIfMetInTime" in v for v in r["violated"]):
         raise Infra("negative control: the pre-repair model does not violate C03_SuccessIfMetInTime: %s" % r["violated"])
-    for probe in ("Probe_PartialReachable", "Probe_AnyByQueuedHandoff"):
-        ctx.write_cfg(sd, "MCp.cfg", "Spec", consts(MaxN=2), [probe])
-        r = ctx.tlc_check(sd, "ClusterWrite", "MCp.cfg", workers=4, timeout=300, expect_ok=False)
-        if not r["violated"]:
-            raise Infra("vacuity: %s is not reachable in the model" % probe)
+    if not ctx.quick():
+        # non-vacuity: partial writes and "any met by a queued hand-off alone" are reachable
+        for probe in ("Probe_PartialReachable", "Probe_AnyByQueuedHandoff", "Probe_TimeoutReachable", "Probe_LateHandoff"):
+            ctx.write_cfg(sd, "MCp.cfg", "Spec", consts(MaxN=2), [probe])
+            r = ctx.tlc_check(sd, "ClusterWrite", "MCp.cfg", workers=4, timeout=300, expect_ok=False)
+            if not r["violated"]:
+                raise Infra("vacuity: %s is not reachable in the model" % probe)
 
     # 2. every maximal path of the model -> the real PointsWriter
     #    quick: all paths with one or two owners; with three owners one coordinator position chosen by the seed
